@@ -40,6 +40,7 @@ Notation T := true (only parsing). Notation F := false (only parsing).
 
 BUILTIN_NAMES = ['has_root', 'has_one_root', 'has_no_cycle', 'has_no_isolated_components',
                  'has_no_self_cycled_nodes', 'has_no_isolated_nodes']   # index = bK of the preamble
+BUILTIN_CTORS = ['HasRoot', 'HasOneRoot', 'NoCycle', 'NoIsoComponents', 'NoSelfCycled', 'NoIsoNodes']
 ADAPTERS = {'I': IdentityAdapter, 'Dr': DirectAdapter, 'X': BaseNetworkxAdapter}
 OUTCOMES = ['RTrue', 'RFalse', 'RNone', 'RValueError', 'ROther']
 _adapters = {}
@@ -137,11 +138,22 @@ def random_graph(rng):
 # ----------------------------------------------------------------------------------------
 # a rule is ('b', k) built-in number k | ('u', native, behaviour); behaviour = ('const', outcome)
 # | ('edges', k, fail_outcome).  The special rule list 'DEFAULT' is vr.DEFAULT_DAG_RULES itself.
+# harness-level refinement of the outcome RValueError: raise golem's own VerificationError (a ValueError
+# subclass, what a nested verifier with raise_on_failure=True raises); printed as RValueError for the model
+FAILS = ['RFalse', 'RValueError', 'RVerificationError']
+
+
 def rand_behaviour(rng, n_edges):
-    if rng.random() < 0.6:
-        return ['const', rng.choice(OUTCOMES)]
+    """['const', outcome] | ['edges', k, fail outcome] | ['nested', [built-in numbers]]: the rule delegates to
+    an inner GraphVerifier(built-in rules, raise_on_failure=True) and returns its answer / lets its
+    VerificationError escape"""
+    x = rng.random()
+    if x < 0.5:
+        return ['const', rng.choice(OUTCOMES + ['RVerificationError'])]
+    if x < 0.75:
+        return ['nested', rng.sample(range(6), rng.randint(1, 3))]
     k = max(0, n_edges + rng.choice([-2, -1, 0, 0, 1]))
-    return ['edges', k, rng.choice(['RFalse', 'RValueError', 'RFalse', 'RValueError', 'ROther'])]
+    return ['edges', k, rng.choice(FAILS + FAILS + ['ROther'])]
 
 
 def rand_subset(rng):
@@ -201,6 +213,8 @@ def _emit(outcome, idx):
         return None
     if outcome == 'RValueError':
         raise (ValueError if idx % 2 == 0 else _Custom)('user rule %d fails' % idx)
+    if outcome == 'RVerificationError':
+        raise VerificationError('user rule %d fails' % idx)
     raise (TypeError, KeyError, RuntimeError)[idx % 3]('user rule %d is broken' % idx)
 
 
@@ -228,6 +242,11 @@ def make_user_rule(idx, native, behaviour, log, graph, form='function'):
         log.append([idx, describe(x, graph)])
         if behaviour[0] == 'const':
             return _emit(behaviour[1], idx)
+        if behaviour[0] == 'nested':
+            # composite rule: an inner verifier that raises on failure; a domain rule written for NetworkX graphs
+            # first adapts its argument back to an optimisation graph
+            inner = GraphVerifier([builtin(i) for i in behaviour[1]], raise_on_failure=True)
+            return inner(adapter_of('X').adapt(x) if isinstance(x, nx.DiGraph) else x)
         if count_edges(x) <= behaviour[1]:
             return True
         return _emit(behaviour[2], idx)
@@ -298,10 +317,16 @@ def c_arg(a):
     return '(ANx 99999 [])'     # neither an OptGraph nor a networkx.DiGraph: matches nothing
 
 
+def c_outcome(o):
+    return 'RValueError' if o == 'RVerificationError' else o
+
+
 def c_behaviour(b):
     if b[0] == 'const':
-        return '(UConst %s)' % b[1]
-    return '(UEdgesLe %d %s)' % (b[1], b[2])
+        return '(UConst %s)' % c_outcome(b[1])
+    if b[0] == 'nested':
+        return '(UNested [%s])' % ';'.join('B%s' % BUILTIN_CTORS[i] for i in b[1])
+    return '(UEdgesLe %d %s)' % (b[1], c_outcome(b[2]))
 
 
 def c_rules(rules):
@@ -351,8 +376,15 @@ def stats_of(par, runs, acc):
         if nontrivial:
             key = repr((gkey, r['adapter'], r['raise'], r['rules']))
             acc['keys'].add(hashlib.sha1(key.encode()).hexdigest()[:16])
-        for fact, val in (('nodes', n), ('config', r['kind']), ('adapter', r['adapter']),
-                          ('raise_on_failure', r['raise']), ('verdict', r['observed']['verdict'])):
+        facts = [('nodes', n), ('config', r['kind']), ('adapter', r['adapter']),
+                 ('raise_on_failure', r['raise']), ('verdict', r['observed']['verdict'])]
+        if r['rules'] != 'DEFAULT':
+            for q in r['rules']:
+                if q[0] == 'u':
+                    b = q[2]
+                    shape = b[1] if b[0] == 'const' else 'nested-verifier' if b[0] == 'nested' else 'edges/' + b[2]
+                    facts.append(('user_rule', '%s %s' % ('native' if q[1] else 'domain', shape)))
+        for fact, val in facts:
             d = acc['dist'].setdefault(fact, {})
             d[str(val)] = d.get(str(val), 0) + 1
 
